@@ -90,8 +90,26 @@ def handleRot (op : String) (rest : List String) : String :=
 
 end
 
-/-- ops: `fwd | bwd | curlE | curlH` (YeeIO) and `rotfwd | rotbwd | rotpoynting`, then kind `r | c`, then the request -/
+/-- `fdtdx.core.axis.get_oriented_transverse_axes(axis)` followed by the axis itself: the right-handed
+(horizontal, vertical, propagation) triple used by plane sources, dipoles and `tilted_polarization_vectors` -/
+def hvp (axis : Nat) : Nat × Nat × Nat := ((axis + 1) % 3, (axis + 2) % 3, axis)
+
+/-- `fdtdx.core.axis.get_transverse_axes(axis)`: the two other axes in ascending order (NOT equivariant) -/
+def ascendingAxes (axis : Nat) : Nat × Nat :=
+  match axis with
+  | 0 => (1, 2)
+  | 1 => (0, 2)
+  | _ => (0, 1)
+
+/-- ops: `fwd | bwd | curlE | curlH` (YeeIO) and `rotfwd | rotbwd | rotpoynting`, then kind `r | c`, then the request;
+`hvp a`, `ascending a` for a = 0, 1, 2 -/
 def handle : List String → String
+  | ["hvp", a] => match Proto.parseNat a with
+    | some n => if n > 2 then "bad-op" else Proto.showNats [(hvp n).1, (hvp n).2.1, (hvp n).2.2]
+    | none => "bad-op"
+  | ["ascending", a] => match Proto.parseNat a with
+    | some n => if n > 2 then "bad-op" else Proto.showNats [(ascendingAxes n).1, (ascendingAxes n).2]
+    | none => "bad-op"
   | "rotfwd" :: "r" :: rest => handleRot (α := Float) "rotfwd" rest
   | "rotbwd" :: "r" :: rest => handleRot (α := Float) "rotbwd" rest
   | "rotpoynting" :: "r" :: rest => handleRot (α := Float) "rotpoynting" rest
